@@ -153,6 +153,7 @@ type wsDial struct {
 	url    *bytesV
 	header value
 	peer   *value
+	local  *value
 }
 
 func (e *Engine) setupDial() {
@@ -172,6 +173,7 @@ func (e *Engine) setupDial() {
 		wa.peer, wb.peer = wb, wa
 		e.ws[pa], e.ws[pb] = wa, wb
 		d.peer = pb
+		d.local = pa
 		e.objs["wsdials"] = append(dials, d)
 		return tuple{pa, zero(respT), e.errNil()}
 	}
@@ -197,6 +199,13 @@ func (e *Engine) setupDial() {
 			return iface{}
 		}
 		return iface{t: types.NewPointer(e.namedType(wsPkg, "Conn")), v: d.peer}
+	}
+	x[rtPkg+".WSDialClosed"] = func(e *Engine, fr *frame, a []value) value {
+		d := getDial(e, a)
+		if d.local == nil {
+			return FalseT
+		}
+		return BoolT(e.wsOf(d.local).closed)
 	}
 	x[rtPkg+".WSDialFail"] = func(e *Engine, fr *frame, a []value) value {
 		t := a[0].(*Term)
